@@ -41,7 +41,9 @@ def _data():
     rows = []
     for _id, obs, doses in (
             ('A', [(0.5, 1.4), (1.5, 0.9), (2.5, 0.5)], [(0.0, 2.0, 0.5)]),
-            ('B', [(1.0, 0.7), (2.0, 1.1)], [(0.5, 1.0, 0.1), (1.5, 3.0, 0.25)])):
+            ('B', [(1.0, 0.7), (2.0, 1.1)], [(0.5, 1.0, 0.1), (1.5, 3.0, 0.25)]),
+            # (an individual that was never dosed)
+            ('C', [(0.8, 0.9), (1.6, 0.6)], [])):
         for t, v in obs:
             rows.append({'ID': _id, 'Time': t, 'Observable': 'conc', 'Value': v,
                          'Dose': np.nan, 'Duration': np.nan})
@@ -217,6 +219,85 @@ MODEL_POINTS = {
 }
 
 
+ERR_KINDS = {'G': 'GaussianErrorModel', 'M': 'MultiplicativeGaussianErrorModel',
+             'CM': 'ConstantAndMultiplicativeGaussianErrorModel',
+             'LN': 'LogNormalErrorModel'}
+
+
+class ErrWorld(object):
+    """For every error model kind: the user's error model, and a likelihood, a
+    predictive model and a controller (with data and prior) built from it."""
+    def __init__(self):
+        self.user, self.obj = {}, {}
+        df = pd.DataFrame({'ID': [1] * 3, 'Time': [0.3, 1.1, 1.9],
+                           'Observable': ['o0'] * 3, 'Value': [1.3, 2.1, 0.9]})
+        for code, cls in ERR_KINDS.items():
+            em = getattr(chi, cls)()
+            self.user[code] = em
+            self.obj['ll' + code] = chi.LogLikelihood(
+                ToyModel(2, 1), [em], [1.3, 2.1, 0.9], [0.3, 1.1, 1.9])
+            self.obj['pred' + code] = chi.PredictiveModel(ToyModel(2, 1), [em])
+            c = chi.ProblemModellingController(ToyModel(2, 1), [em])
+            c.set_data(df, output_observable_dict={'o0': 'o0'})
+            c.set_log_prior(pints.ComposedLogPrior(*[
+                pints.UniformLogPrior(0, 10)
+                for _ in range(c.get_n_parameters())]))
+            self.obj['ctrl' + code] = c
+
+
+ERR_POINTS = [np.array([0.9, 0.6, 0.4, 0.25]), np.array([1.3, 0.4, 0.7, 0.15])]
+
+
+def err_ops():
+    ops = []
+    for code in ERR_KINDS:
+        for k in (0, 1):
+            ops.append(['x_call', 'll' + code, k])
+            ops.append(['x_S1', 'll' + code, k])
+        ops.append(['x_pw', 'll' + code, 0])
+        ops.append(['x_sample', 'pred' + code, 3])
+        ops.append(['x_names', 'ctrl' + code, 0])
+        ops.append(['x_getpost', 'ctrl' + code, 1])
+        ops.append(['mut_xren', code, 0])
+    return ops
+
+
+def apply_err(world, op):
+    kind, name, k = op
+    if kind == 'mut_xren':
+        # the user renames the parameters of their own error model
+        em = world.user[name]
+        em.set_parameter_names(['user name %d' % i
+                                for i in range(em.n_parameters())])
+        return ['mutated'], True
+    o = world.obj[name]
+    if kind == 'x_names':
+        names = list(o.get_parameter_names())
+        pm = o.get_predictive_model()
+        return [' | '.join(names), ' | '.join(pm.get_parameter_names())], True
+    if kind == 'x_getpost':
+        post = o.get_log_posterior()
+        x = ERR_POINTS[k][:post.n_parameters()].copy()
+        return [post(x), ' | '.join(post.get_parameter_names())], True
+    if kind == 'x_sample':
+        theta = ERR_POINTS[0][:o.n_parameters()].copy()
+        th0 = theta.copy()
+        r = o.sample(theta, [0.4, 1.2], n_samples=2, seed=k, return_df=False)
+        return [r, ' | '.join(o.get_parameter_names())], np.array_equal(theta, th0)
+    x = ERR_POINTS[k][:o.n_parameters()].copy()
+    x0 = x.copy()
+    if kind == 'x_call':
+        r = [o(x)]
+    elif kind == 'x_S1':
+        s_, g = o.evaluateS1(x)
+        r = [s_, np.asarray(g, dtype=float)]
+    elif kind == 'x_pw':
+        r = [o.compute_pointwise_ll(x)]
+    else:
+        raise ValueError(kind)
+    return r + [' | '.join(o.get_parameter_names())], np.array_equal(x, x0)
+
+
 def model_ops():
     ops = []
     for name in MODEL_POINTS:
@@ -306,6 +387,15 @@ def all_ops():
         ops.append(['fll', name, 2])
     ops.append(['sample', 'pred', 3])
     ops.append(['sample', 'pred', 4])
+    # tables with the dosing regimen, and the regimen table on its own
+    ops.append(['sampledf', 'pred', 3])
+    ops.append(['regdf', 'pred', 0])
+    # posteriors taken from the controller NOW (dosed and never-dosed individuals)
+    for who in ('A', 'B', 'C'):
+        ops.append(['getpost', 'ctrl:' + who, 0])
+    # a filter posterior built NOW from the user's filter (unsorted times)
+    for name in ('filterG', 'filter', 'filterC'):
+        ops.append(['mkpost', name, 0])
     ops.append(['init', 'postA', 3])
     ops.append(['sampleR', 'predR', 3])
     ops.append(['sampleR', 'predR2', 3])
@@ -330,6 +420,8 @@ def all_ops():
 def apply(world, op):
     """Executes one operation; returns (result, inputs_unchanged)."""
     kind, name, k = op
+    if isinstance(world, ErrWorld):
+        return apply_err(world, op)
     if kind in MODEL_KINDS:
         return apply_model(world, op)
     if kind.startswith('mut_'):
@@ -363,7 +455,31 @@ def apply(world, op):
             world.obj['predR2'].fix_parameters({'Sigma rel.': 0.7})
             return ['mutated'], True
         return ['mutated'], True
+    if kind == 'getpost':
+        post = world.ctrl.get_log_posterior(name.split(':')[1])
+        x = POINTS['ll'][k].copy()
+        return [post(x), post.get_log_likelihood()(x)], True
     o = world.obj[name]
+    if kind == 'mkpost':
+        fpop = popbuild.build(rp.Comp([rp.LN(1), rp.P(1)]), None)
+        fp = chi.PopulationFilterLogPosterior(
+            o, [0.5, 2.0, 1.0], ToyModel(2, 1), fpop,
+            pints.ComposedLogPrior(*[pints.UniformLogPrior(0, 5)
+                                     for _ in range(3)]),
+            sigma=[0.3], n_samples=4)
+        n_ = fp.n_parameters()
+        x = np.array([0.2, 0.5, 1.1, 1.2, 0.9, 1.6, 1.3] + [
+            0.1 * ((7 * i_) % 9 - 4) for i_ in range(n_ - 7)])
+        return [fp(x), fp.evaluateS1(x)[0]], True
+    if kind == 'sampledf':
+        theta = np.array([0.1, 1.3, 0.9, 0.2])
+        df = o.sample(theta, [2.0, 0.5, 1.2], n_samples=3, seed=k,
+                      include_regimen=True)
+        num = df[[c_ for c_ in df.columns if c_ != 'Observable']]
+        return [num.to_numpy(dtype=float), ' | '.join(df.columns)], True
+    if kind == 'regdf':
+        df = o.get_dosing_regimen(final_time=2.0)   # (the last sampling time)
+        return [df.to_numpy(dtype=float), ' | '.join(df.columns)], True
     if kind == 'sample':
         theta = np.array([0.1, 1.3, 0.9, 0.2])
         times = np.array([2.0, 0.5, 1.2])
@@ -418,7 +534,8 @@ def reference(op_key, own=()):
     """Result of the operation on a freshly built world (`own`: reconfigurations
     of the evaluated object itself that happened before, replayed first)."""
     op = list(op_key)
-    w = ModelWorld() if op[0] in MODEL_KINDS else World()
+    w = ModelWorld() if op[0] in MODEL_KINDS else (
+        ErrWorld() if op[0].startswith('x_') else World())
     for o in own:
         apply(w, list(o))
     r, _ = apply(w, op)
@@ -489,8 +606,9 @@ def check_history(world, history, viol, where='same process'):
 def w_history(case):
     viol = []
     refsim.Counters.reset()
-    if case.get('world') == 'models':
-        check_history(ModelWorld(), case['ops'], viol)
+    if case.get('world') in ('models', 'errors'):
+        check_history(ModelWorld() if case['world'] == 'models' else ErrWorld(),
+                      case['ops'], viol)
         return {'transitions': len(case['ops']) + 1,
                 'outcome': key_of(case['ops']), 'violations': viol}
     w = World(tuple(case.get('pre', ())))
@@ -564,7 +682,7 @@ def w_evaluators(case):
 
 
 WORKERS = {'histories': w_history, 'fork': w_fork, 'evaluators': w_evaluators,
-           'models': w_history}
+           'models': w_history, 'error_kinds': w_history}
 
 
 def build(tier, seed):
@@ -624,6 +742,21 @@ def build(tier, seed):
             for b in own:
                 for c in own:
                     mh.append({'world': 'models', 'ops': [a, b, c]})
+    # error model kinds: all ordered pairs over all kinds, all triples within a kind
+    eops = err_ops()
+    eh = [{'world': 'errors', 'ops': [a]} for a in eops]
+    for a in eops:
+        for b in eops:
+            if not b[0].startswith('mut_'):
+                eh.append({'world': 'errors', 'ops': [a, b]})
+    for code in ERR_KINDS:
+        own = [o for o in eops if o[1] in ('ll' + code, 'pred' + code,
+                                           'ctrl' + code, code)]
+        for a in own:
+            for b in own:
+                for c in own:
+                    if not c[0].startswith('mut_'):
+                        eh.append({'world': 'errors', 'ops': [a, b, c]})
     fork = []
     tasks_alpha = [o for o in evals if o[1] in ('llA', 'postA', 'hier', 'fpost')
                    and o[0] in ('call', 'S1')]
@@ -649,6 +782,11 @@ def build(tier, seed):
                  'ordered pairs of evaluations over all models, all triples on one '
                  'model; fresh-object equality, inputs untouched, results handed '
                  'out earlier unchanged'),
+            Part('error_kinds', eh, w_history,
+                 'likelihood, predictive model and controller built from a user '
+                 'error model of every kind: value / pointwise / S1 / sampling / '
+                 'names / posteriors taken later, and the user renaming their model: '
+                 'all ordered pairs, all triples within a kind'),
             Part('fork', fork, w_fork,
                  'history prefix in the parent, ordered task subsets in a forked '
                  'worker'),
